@@ -164,6 +164,33 @@ def cfsV2Dom : Dom Int :=
 /-- a resource registered without merge function (memory.limit_in_bytes): written once, in pass 1. -/
 def plainDom : Dom Int := { limDom with mergeable := false }
 
+/-! ### BE cpuset two-phase rewrite (cpusuppress) -/
+
+/-- executor.go updateByCache (used by `UpdateBatch(true, …)` / `Update(true, …)`):
+    needUpdate → update() (write if different) → cache the updater. -/
+def stepCached {α} (D : Dom α) (expired : Bool) (s : St α) (u : Upd α) : St α × List (Write α) :=
+  if !needUpdate D expired s u then (s, []) else
+  match u.tgt with
+  | none => (s, [])
+  | some t =>
+    let cur := s.files u.node
+    if D.same cur t then
+      ({ s with cache := setAt s.cache u.node (D.afterUpdate t) }, [])
+    else
+      ({ s with files := setAt s.files u.node t, cache := setAt s.cache u.node (D.afterUpdate t) }, [(u.node, t)])
+
+/-- qosmanager/plugins/cpusuppress/cpu_suppress.go applyCPUSetWithNonePolicy + writeBECgroupsCPUSet.
+    `paths` = koordletutil.GetBECPUSetPathsByMaxDepth(2): the besteffort dir, BE pod dirs and their container
+    dirs in filepath.Walk order (a dir before everything below it); `cpus` the new set, `old` = oldCPUSet
+    (bitmasks).  Pass 1: cacheable UpdateBatch of the union over `paths`; pass 2: cacheable UpdateBatch of
+    the new set over the reversed `paths`. -/
+def nonePolicy (expired : Bool) (paths : List Nat) (cpus old : Nat) (s : St Nat) : St Nat × List (Write Nat) :=
+  if cpus = 0 then (s, []) else      -- len(cpus) <= 0: skipped
+  let m := old ||| cpus              -- cpuset.MergeCPUSet(oldCPUSet, cpus)
+  let r1 := runPass (stepCached cpusetDom expired) (paths.map fun n => { node := n, tgt := some m }) s
+  let r2 := runPass (stepCached cpusetDom expired) (paths.reverse.map fun n => { node := n, tgt := some cpus }) r1.1
+  (r2.1, r1.2 ++ r2.2)
+
 /-- resource index of the line protocol: 0 cpuset.cpus (see `cpusetDom`), 1 cpu.cfs_quota_us,
     2 memory.min, 3 memory.low, 4 memory.high, 5 memory.limit_in_bytes. -/
 def intDomOf (res : Nat) (v2 : Bool) : Option (Dom Int) :=
